@@ -1557,3 +1557,350 @@ theorem condPass_wfs (cfg : Cfg) (ctx : Ctx) (ts : List Tok) (hw : ∀ t ∈ ts,
   exact hw x (by simpa [verbatim] using this)
 
 end Operon.Tmpl
+
+namespace Operon.Tmpl
+open Operon.Ribosome
+
+/-! ### loop bodies: `str.replace("{{key}}", value)` on printed tokens -/
+
+/-- a loop-context key that can be the name of a `{{key}}` token: a word, or `.` -/
+def GoodKey (cfg : Cfg) (k : Str) : Prop := WordName cfg k ∨ k = kDot
+
+def viewKey (k : Str) (t : Tok) : Option Unit := if keyMatches k t then some () else none
+
+theorem needsLL_stripKey (k : Str) : NeedsLL (stripM (tagOf k)) := by
+  apply needsLL_of_LL
+  intro s h
+  have : tagOf k = LL ++ (k ++ RR) := by simp [tagOf]
+  simp [stripM, this, stripPrefix_append_none LL _ s h]
+
+theorem stripKey_at (cfg : Cfg) (hs : CfgSane cfg) (k : Str) (hk : GoodKey cfg k) (t : Tok)
+    (hw : t.wfp cfg) (htag : t.isTag = true) (rest : Str) :
+    stripM (tagOf k) (t.print ++ rest) = (viewKey k t).map (fun u => (u, rest)) := by
+  have hk125 : 125 ∉ k := by
+    rcases hk with h | h
+    · exact word_no h 125 hs.rb
+    · subst h; decide
+  have hk124 : 124 ∉ k := by
+    rcases hk with h | h
+    · exact word_no h 124 hs.bar
+    · subst h; decide
+  have hpt : tagOf k = 123 :: 123 :: (k ++ 125 :: [125]) := by simp [tagOf, LL, RR]
+  -- the third character of the pattern is a word character or `.`
+  have third : ∀ (d : Nat) (s : Str), cfg.isWord d = false → d ≠ 46 → stripM (tagOf k) (123 :: 123 :: d :: s) = none := by
+    intro d s hd hd46
+    rcases hk with h | h
+    · obtain ⟨c, tl, rfl, hc⟩ := word_head h
+      have : c ≠ d := fun e => by rw [e, hd] at hc; cases hc
+      rw [hpt]; simp [stripM, stripPrefix, this]
+    · subst h
+      have : (46 = d) = False := by simp; omega
+      simp [stripM, tagOf, kDot, LL, stripPrefix, this]
+  cases t with
+  | text s => cases htag
+  | val s => cases htag
+  | var n =>
+    have hp' : (Tok.var n).print ++ rest = 123 :: 123 :: (n ++ 125 :: (125 :: rest)) := by
+      simp [Tok.print, tagOf, LL, RR]
+    rw [hp', hpt]
+    have h1 := stripPrefix_sep 125 k n [125] (125 :: rest) hk125 (word_no hw 125 hs.rb)
+    simp only [stripM, stripPrefix, if_true, h1, viewKey, keyMatches, beq_iff_eq]
+    by_cases e : k = n
+    · subst e; simp [stripPrefix]
+    · have e' : ¬ n = k := fun h => e h.symm
+      simp [e, e']
+  | dot =>
+    have hp' : Tok.dot.print ++ rest = 123 :: 123 :: ([46] ++ 125 :: (125 :: rest)) := by
+      simp [Tok.print, tagOf, kDot, LL, RR]
+    rw [hp', hpt]
+    have h1 := stripPrefix_sep 125 k [46] [125] (125 :: rest) hk125 (by decide)
+    simp only [stripM, stripPrefix, if_true, h1, viewKey, keyMatches, beq_iff_eq, kDot]
+    by_cases e : k = [46]
+    · subst e; simp [stripPrefix]
+    · simp [e]
+  | pipe n a =>
+    have hp' : (Tok.pipe n a).print ++ rest = 123 :: 123 :: (n ++ 124 :: (a ++ 125 :: 125 :: rest)) := by
+      simp [Tok.print, pipeTag, LL, RR, BAR]
+    rw [hp', hpt]
+    have := stripPrefix_sep_ne 125 124 k n [125] (a ++ 125 :: 125 :: rest) (word_no hw.1 125 hs.rb) hk124 (by decide)
+    simp [stripM, stripPrefix, this, viewKey, keyMatches]
+  | opt n => simpa [Tok.print, OPTH, viewKey, keyMatches] using third 63 _ hs.q (by decide)
+  | inc n => simpa [Tok.print, INCH, viewKey, keyMatches] using third 62 _ hs.gt (by decide)
+  | ifO ws n => simpa [Tok.print, IFH, viewKey, keyMatches] using third 35 _ hs.hash (by decide)
+  | els => simpa [Tok.print, ELSE, viewKey, keyMatches] using third 35 _ hs.hash (by decide)
+  | ifC => simpa [Tok.print, ENDIF, viewKey, keyMatches] using third 47 _ hs.slash (by decide)
+  | eachO ws n => simpa [Tok.print, EACHH, viewKey, keyMatches] using third 35 _ hs.hash (by decide)
+  | eachC => simpa [Tok.print, ENDEACH, viewKey, keyMatches] using third 47 _ hs.slash (by decide)
+
+/-- one `str.replace("{{key}}", value)` of the loop-body instantiation, on printed tokens -/
+theorem replaceKey_print (cfg : Cfg) (hs : CfgSane cfg) (k v : Str) (hk : GoodKey cfg k)
+    (b : List Tok) (hw : ∀ t ∈ b, t.wfp cfg) :
+    replaceStr (tagOf k) v (printToks b) = printToks (b.flatMap (fun t => if keyMatches k t then [.val v] else [t])) := by
+  unfold replaceStr
+  rw [replaceAll_eq_scan _ _ (by simp [tagOf, LL]) _ _ (by omega)]
+  rw [scan_print_gen cfg hs (stripM (tagOf k)) (needsLL_stripKey k) (viewKey k)
+    (by intro t h; cases t <;> first | (simp [viewKey, keyMatches]; done) | cases h) b hw
+    (fun t ht htag rest => stripKey_at cfg hs k hk t (hw t ht) htag rest) _ (by omega)]
+  rw [subWith_scanView, printToks_flatMap]
+  apply flatMap_congr'
+  intro t _
+  cases h : keyMatches k t <;> simp [viewKey, h, printToks, Tok.print]
+
+def KeysGood (cfg : Cfg) (kvs : List (Str × Str)) : Prop := ∀ p ∈ kvs, GoodKey cfg p.1
+
+/-- the whole loop-body instantiation (sequential `str.replace` over the loop context) = `substTok` -/
+theorem substLoop_print (cfg : Cfg) (hs : CfgSane cfg) (kvs : List (Str × Str)) (hk : KeysGood cfg kvs)
+    (hv : ValsNoLB kvs) (b : List Tok) (hw : ∀ t ∈ b, t.wfp cfg) :
+    substLoop kvs (printToks b) = printToks (substTok cfg kvs b) ∧ ∀ t ∈ substTok cfg kvs b, t.wfp cfg ∧ (t ∈ b ∨ ∃ v, t = .val v) := by
+  unfold substLoop substTok
+  induction kvs generalizing b with
+  | nil => exact ⟨rfl, fun t ht => ⟨hw t ht, Or.inl ht⟩⟩
+  | cons p kvs ih =>
+    simp only [List.foldl_cons]
+    have hvp := hv p (by simp)
+    rw [replaceKey_print cfg hs p.1 p.2 (hk p (by simp)) b hw]
+    have heq : (b.flatMap fun t => if keyMatches p.1 t then [Tok.val p.2] else [t])
+        = b.flatMap (fun t => if keyMatches p.1 t then lexVal cfg p.2 else [t]) := by
+      rw [lexVal_noLB cfg _ hvp]; rfl
+    rw [heq]
+    have hw' : ∀ t ∈ b.flatMap (fun t => if keyMatches p.1 t then lexVal cfg p.2 else [t]),
+        t.wfp cfg ∧ (t ∈ b ∨ ∃ v, t = .val v) := by
+      intro x hx
+      obtain ⟨t, ht, hxt⟩ := List.mem_flatMap.mp hx
+      split at hxt
+      · rw [lexVal_noLB cfg _ hvp] at hxt
+        rw [mem_valTok hxt]; exact ⟨hvp, Or.inr ⟨_, rfl⟩⟩
+      · simp at hxt; rw [hxt]; exact ⟨hw t ht, Or.inl ht⟩
+    obtain ⟨h1, h2⟩ := ih (fun q hq => hk q (by simp [hq])) (fun q hq => hv q (by simp [hq])) _ (fun t ht => (hw' t ht).1)
+    refine ⟨h1, ?_⟩
+    intro t ht
+    obtain ⟨h3, h4⟩ := h2 t ht
+    refine ⟨h3, ?_⟩
+    rcases h4 with h4 | h4
+    · exact (hw' t h4).2
+    · exact Or.inr h4
+
+end Operon.Tmpl
+
+namespace Operon.Tmpl
+open Operon.Ribosome
+
+/-! ### the loop pass -/
+
+/-- the names of the documented loop variables are words of the environment's `\w` -/
+structure LoopWords (cfg : Cfg) : Prop where
+  item : WordName cfg kItem
+  index : WordName cfg kIndex
+  first : WordName cfg kFirst
+  last : WordName cfg kLast
+
+def ItemOK (cfg : Cfg) (it : Item) : Prop := NoLB it.text ∧ ∀ p ∈ it.fields, GoodKey cfg p.1 ∧ NoLB p.2
+
+theorem updKey_keysGood (cfg : Cfg) (kvs : List (Str × Str)) (k v : Str) (h : KeysGood cfg kvs) (hk : GoodKey cfg k) :
+    KeysGood cfg (updKey kvs k v) := by
+  unfold updKey
+  split
+  · intro p hp
+    simp only [List.mem_map] at hp
+    obtain ⟨q, hq, rfl⟩ := hp
+    split
+    · exact hk
+    · exact h q hq
+  · intro p hp
+    simp only [List.mem_append, List.mem_singleton] at hp
+    rcases hp with hp | rfl
+    · exact h p hp
+    · exact hk
+
+theorem foldl_updKey_keysGood (cfg : Cfg) (fs : List (Str × Str)) (kvs : List (Str × Str)) (h : KeysGood cfg kvs)
+    (hf : ∀ p ∈ fs, GoodKey cfg p.1) : KeysGood cfg (fs.foldl (fun acc p => updKey acc p.1 p.2) kvs) := by
+  induction fs generalizing kvs with
+  | nil => simpa using h
+  | cons p fs ih =>
+    simp only [List.foldl_cons]
+    exact ih _ (updKey_keysGood cfg kvs p.1 p.2 h (hf p (by simp))) (fun q hq => hf q (by simp [hq]))
+
+theorem loopCtx_keysGood (cfg : Cfg) (hl : LoopWords cfg) (i len : Nat) (it : Item) (hf : ∀ p ∈ it.fields, GoodKey cfg p.1) :
+    KeysGood cfg (loopCtx i len it) := by
+  unfold loopCtx
+  apply foldl_updKey_keysGood cfg _ _ _ hf
+  intro p hp
+  simp only [List.mem_cons, List.not_mem_nil, or_false] at hp
+  rcases hp with rfl | rfl | rfl | rfl | rfl
+  · exact Or.inr rfl
+  · exact Or.inl hl.item
+  · exact Or.inl hl.index
+  · exact Or.inl hl.first
+  · exact Or.inl hl.last
+
+theorem expandItems_print (cfg : Cfg) (hs : CfgSane cfg) (hl : LoopWords cfg) (len : Nat) (body : List Tok)
+    (hw : ∀ t ∈ body, t.wfp cfg) (its : List Item) (hi : ∀ it ∈ its, ItemOK cfg it) (i : Nat) :
+    expandItems len (printToks body) i its = printToks (expandItemsTok cfg len body i its) ∧
+    ∀ t ∈ expandItemsTok cfg len body i its, t ∈ body ∨ ∃ v, NoLB v ∧ t = .val v := by
+  induction its generalizing i with
+  | nil => exact ⟨rfl, by simp [expandItemsTok]⟩
+  | cons it its ih =>
+    obtain ⟨hit, hif⟩ := hi it (by simp)
+    obtain ⟨h1, h2⟩ := substLoop_print cfg hs (loopCtx i len it)
+      (loopCtx_keysGood cfg hl i len it (fun p hp => (hif p hp).1))
+      (loopCtx_noLB i len it hit (fun p hp => (hif p hp).2)) body hw
+    obtain ⟨h3, h4⟩ := ih (fun x hx => hi x (by simp [hx])) (i + 1)
+    refine ⟨by simp only [expandItems, expandItemsTok, h1, h3, printToks_append], ?_⟩
+    intro t ht
+    simp only [expandItemsTok, List.mem_append] at ht
+    rcases ht with ht | ht
+    · obtain ⟨hwf, hmem⟩ := h2 t ht
+      rcases hmem with hm | ⟨v, rfl⟩
+      · exact Or.inl hm
+      · exact Or.inr ⟨v, hwf, rfl⟩
+    · exact h4 t ht
+
+def CtxItemsOK (cfg : Cfg) (ctx : Ctx) : Prop :=
+  ∀ n v its, lookup n ctx = some v → v.items = some its → ∀ it ∈ its, ItemOK cfg it
+
+theorem loopRepl_print (cfg : Cfg) (hs : CfgSane cfg) (hl : LoopWords cfg) (ctx : Ctx) (hc : CtxItemsOK cfg ctx)
+    (n : Str) (body : List Tok) (hw : ∀ t ∈ body, t.wfp cfg) :
+    loopRepl ctx n (printToks body) = printToks (loopReplTok cfg ctx n body) ∧
+    ∀ t ∈ loopReplTok cfg ctx n body, t ∈ body ∨ ∃ v, NoLB v ∧ t = .val v := by
+  unfold loopRepl loopReplTok
+  cases hlk : lookup n ctx with
+  | none => exact ⟨rfl, by simp⟩
+  | some v =>
+    cases hit : v.items with
+    | none => simp only [hit]; exact ⟨rfl, by simp⟩
+    | some its => simp only [hit]; exact expandItems_print cfg hs hl its.length body hw its (hc n v its hlk hit) 0
+
+def verbatimL : LSt → List Tok
+  | .out => []
+  | .body ws n acc => .eachO ws n :: acc
+
+theorem loopGo_no_close (cfg : Cfg) (ctx : Ctx) (r : List Tok) (h : Tok.eachC ∉ r) :
+    ∀ st, loopGo cfg ctx st r = verbatimL st ++ r := by
+  induction r with
+  | nil => intro st; cases st <;> simp [loopGo, verbatimL]
+  | cons t r ih =>
+    have ht : t ≠ .eachC := fun e => h (by simp [e])
+    have ih' := ih (fun hm => h (by simp [hm]))
+    intro st
+    cases st with
+    | out => cases t <;> first | (exact absurd rfl ht) | (simp [loopGo, ih', verbatimL])
+    | body ws n acc => cases t <;> first | (exact absurd rfl ht) | (simp [loopGo, ih', verbatimL])
+
+theorem loopGo_split (cfg : Cfg) (ctx : Ctx) (ws n : Str) : ∀ (r acc b rest : List Tok),
+    splitTok .eachC r = some (b, rest) →
+    loopGo cfg ctx (.body ws n acc) r = loopReplTok cfg ctx n (acc ++ b) ++ loopGo cfg ctx .out rest := by
+  intro r
+  induction r with
+  | nil => intro acc b rest h; simp [splitTok] at h
+  | cons x r ih =>
+    intro acc b rest h
+    simp only [splitTok] at h
+    split at h
+    · rename_i hx
+      subst hx
+      simp only [Option.some.injEq, Prod.mk.injEq] at h
+      obtain ⟨rfl, rfl⟩ := h
+      simp [loopGo]
+    · rename_i hx
+      cases hh : splitTok .eachC r with
+      | none => simp [hh] at h
+      | some y =>
+        simp only [hh, Option.map, Option.some.injEq, Prod.mk.injEq] at h
+        obtain ⟨rfl, rfl⟩ := h
+        have := ih (acc ++ [x]) y.1 y.2 (by rw [hh])
+        cases x <;> first | (exact absurd rfl hx) | (simp [loopGo, this])
+
+/-- THE LOOP PASS of the string layer (`_process_loops`: one lazy regex, loop bodies instantiated by sequential
+    `str.replace` over the loop context) is the token layer's `loopPass`, on the printed form of every well-formed token
+    list, when items and dict fields contain no `{` and dict keys are words (or `.`). -/
+theorem processLoops_print (cfg : Cfg) (hs : CfgSane2 cfg) (hl : LoopWords cfg) (ctx : Ctx) (hc : CtxItemsOK cfg ctx)
+    (ts : List Tok) (hw : ∀ t ∈ ts, t.wfs cfg) :
+    processLoops cfg ctx (printToks ts) = printToks (loopPass cfg ctx ts) ∧ ∀ t ∈ loopPass cfg ctx ts, t.wfs cfg := by
+  unfold processLoops scanStr loopPass
+  suffices H : ∀ (k : Nat) (ts : List Tok), ts.length ≤ k → (∀ t ∈ ts, t.wfs cfg) → ∀ f, (printToks ts).length ≤ f →
+      subWith (fun (m : Str × Str) => loopRepl ctx m.1 m.2) (scan (matchLoop cfg) f (printToks ts))
+        = printToks (loopGo cfg ctx .out ts) ∧ ∀ t ∈ loopGo cfg ctx .out ts, t.wfs cfg from
+    H ts.length ts (Nat.le_refl _) hw _ (by omega)
+  intro k
+  induction k with
+  | zero =>
+    intro ts hl' _ f _
+    have : ts = [] := List.length_eq_zero_iff.mp (by omega)
+    subst this
+    simp [printToks, scan_nil, subWith, loopGo]
+  | succ k ih =>
+    intro ts hl' hw f hf
+    cases ts with
+    | nil => simp [printToks, scan_nil, subWith, loopGo]
+    | cons t r =>
+      have hwt := hw t (by simp)
+      have hwr : ∀ x ∈ r, x.wfs cfg := fun x hx => hw x (by simp [hx])
+      have hwpr : ∀ x ∈ r, x.wfp cfg := fun x hx => (hwr x hx).wfp hs
+      have hrl : r.length ≤ k := by simp at hl'; omega
+      rw [printToks_cons] at hf ⊢
+      rw [List.length_append] at hf
+      by_cases hhit : ∃ ws n b rest, t = .eachO ws n ∧ splitTok .eachC r = some (b, rest)
+      · obtain ⟨ws, n, b, rest, rfl, hsp⟩ := hhit
+        have hd := splitTok_decomp .eachC r b rest hsp
+        have hwb : ∀ x ∈ b, x.wfs cfg := fun x hx => hwr x (by rw [hd]; simp [hx])
+        have hm0 : matchLoop cfg ((Tok.eachO ws n).print ++ printToks r) = some ((n, printToks b), printToks rest) := by
+          simp [matchLoop, mHeadEach_at cfg hs _ hwt rfl, viewEachO, findEndEach_print cfg hs.toCfgSane r hwpr, hsp]
+        have hne : (Tok.eachO ws n).print = 123 :: ((Tok.eachO ws n).print.drop 1) := by simp [Tok.print, EACHH]
+        obtain ⟨f', rfl⟩ : ∃ f', f = f' + 1 := ⟨f - 1, by rw [hne] at hf; simp at hf; omega⟩
+        have hlen : (printToks rest).length ≤ f' := by
+          have : (printToks r).length = (printToks b).length + (Tok.eachC.print.length + (printToks rest).length) := by
+            rw [hd]; simp [printToks_append, printToks_cons]
+          rw [hne] at hf; simp at hf; omega
+        have hstep : scan (matchLoop cfg) (f' + 1) ((Tok.eachO ws n).print ++ printToks r)
+            = .inr (n, printToks b) :: scan (matchLoop cfg) f' (printToks rest) := by
+          rw [hne] at hm0 ⊢
+          simp only [List.cons_append] at hm0 ⊢
+          simp only [scan, hm0]
+        obtain ⟨ih1, ih2⟩ := ih rest (by have := splitTok_length .eachC r b rest hsp; omega)
+          (fun x hx => hwr x (by rw [hd]; simp [hx])) f' hlen
+        obtain ⟨hr1, hr2⟩ := loopRepl_print cfg hs.toCfgSane hl ctx hc n b (fun x hx => (hwb x hx).wfp hs)
+        rw [hstep]
+        simp only [subWith, ih1, hr1, loopGo, loopGo_split cfg ctx ws n r [] b rest hsp, List.nil_append,
+          printToks_append, true_and]
+        intro x hx
+        rcases List.mem_append.mp hx with h | h
+        · rcases hr2 x h with hm | ⟨v, hv, rfl⟩
+          · exact hwb x hm
+          · exact hv
+        · exact ih2 x h
+      · have hm0 : t.print ≠ [] → matchLoop cfg (t.print ++ printToks r) = none := by
+          intro hne
+          cases htag : t.isTag
+          · rcases print_shape cfg hs.toCfgSane t (hwt.wfp hs) with ⟨_, hp⟩ | ⟨h1, _⟩
+            · have := plain_none _ (needsLL_loop cfg) t.print (printToks r) hp 0
+                (by cases h : t.print <;> simp_all)
+              simpa using this
+            · rw [htag] at h1; cases h1
+          · have hH := mHeadEach_at cfg hs t hwt htag (printToks r)
+            cases t with
+            | eachO ws n =>
+              cases hsp : splitTok .eachC r with
+              | none => simp [matchLoop, hH, viewEachO, findEndEach_print cfg hs.toCfgSane r hwpr, hsp]
+              | some y => exact absurd ⟨ws, n, y.1, y.2, rfl, hsp⟩ hhit
+            | _ => simp [matchLoop, hH, viewEachO]
+        have hsplit : f = t.print.length + (f - t.print.length) := by omega
+        obtain ⟨ih1, ih2⟩ := ih r hrl hwr (f - t.print.length) (by omega)
+        rw [hsplit, scan_over_tok cfg hs.toCfgSane _ (needsLL_loop cfg) t (hwt.wfp hs) _ hm0, subWith_inl, ih1]
+        have htok : loopGo cfg ctx .out (t :: r) = t :: loopGo cfg ctx .out r := by
+          cases t with
+          | eachO ws n =>
+            have hnone : splitTok .eachC r = none := by
+              cases hsp : splitTok .eachC r with
+              | none => rfl
+              | some y => exact absurd ⟨ws, n, y.1, y.2, rfl, hsp⟩ hhit
+            have hnc := splitTok_none _ r hnone
+            simp [loopGo, loopGo_no_close cfg ctx r hnc, verbatimL]
+          | _ => simp [loopGo]
+        rw [htok, printToks_cons]
+        refine ⟨rfl, ?_⟩
+        intro x hx
+        rcases List.mem_cons.mp hx with rfl | h
+        · exact hwt
+        · exact ih2 x h
+
+end Operon.Tmpl
